@@ -26,6 +26,7 @@ RULE = ("seeded grammar-directed guard lists (1-5 entries: expressions of depth 
         "surrounding blanks; distinct = hash of the canonical scenario (entries, providers, valuations)")
 
 
+
 def nontrivial(scn):
     for en in scn["entries"]:
         if en["kind"] != "expr":
@@ -128,35 +129,48 @@ def _random_batch(args):
     return process(scns)
 
 
+_FAMILY_CACHE = {}
+
+
+def family(kind, size):
+    """small-scope families enumerated completely: ("bool", k) every tree with <= k operators from
+    {not, and, or} over 3 names; ("chain", k) every comparison chain with <= k links over {x, y, 1}"""
+    key = (kind, size)
+    if key not in _FAMILY_CACHE:
+        if kind == "bool":
+            memo, trees = {}, []
+            for k in range(size + 1):
+                trees += G.enum_trees(k, ["x", "vy", "z"], memo)
+        else:
+            trees = G.enum_chains(size)
+        _FAMILY_CACHE[key] = trees
+    return _FAMILY_CACHE[key]
+
+
 def _exhaustive_batch(args):
-    lo, hi = args
-    memo = {}
-    leaves = ["x", "vy", "z"]
-    trees = []
-    for k in range(5):
-        trees += G.enum_trees(k, leaves, memo)
-    vals = [("i7", "s"), ("T", "F"), ("s61", "l0")]
+    import ast
+    kind, size, lo, hi = args
+    trees = family(kind, size)
+    provs = {"x": [["model", "prop"]], "vy": [["machine", "method"]], "z": [["L0", "attr"]], "y": [["L0", "method"]]}
     scns = []
     for idx in range(lo, min(hi, len(trees))):
         text, canon, tight = G.render_plain(trees[idx], idx)
-        provs = {"x": [["model", "prop"]], "vy": [["machine", "method"]], "z": [["L0", "attr"]]}
-        import ast
         used = set(G.names_of(ast.parse(canon, mode="eval")))
-        names = {n: provs[n] for n in leaves if n in used}
+        names = {n: provs[n] for n in provs if n in used}
         slots = [f"{ps[0][0]}.{n}" for n, ps in names.items()]
         rounds = []
-        for m in range(2 ** len(slots)):
-            tv, fv = vals[idx % 3]
-            rounds.append({s: (tv if (m >> j) & 1 else fv) for j, s in enumerate(slots)})
+        if kind == "bool":
+            tv, fv = [("i7", "s"), ("T", "F"), ("s61", "l0")][idx % 3]
+            for m in range(2 ** len(slots)):
+                rounds.append({s: (tv if (m >> j) & 1 else fv) for j, s in enumerate(slots)})
+        else:
+            vals = ["i0", "i1", "i2"]
+            for m in range(3 ** len(slots)):
+                rounds.append({s: vals[(m // 3 ** j) % 3] for j, s in enumerate(slots)})
         group = "cond" if idx % 2 == 0 else "unless"
-        scns.append(dict(id=f"X{idx}", names=names, rounds=rounds, force_async=False, malformed=None,
+        scns.append(dict(id=f"X{kind}{idx}", names=names, rounds=rounds, force_async=False, malformed=None,
                          entries=[dict(group=group, kind="expr", text=text, canon=canon, tight=tight)]))
     return process(scns)
-
-
-def n_exhaustive():
-    memo = {}
-    return sum(len(G.enum_trees(k, ["x", "vy", "z"], memo)) for k in range(5))
 
 
 # ----------------------------------------------------------------------------- reporting
@@ -256,16 +270,6 @@ FINDING_PROBES = {
         entries=[dict(group="cond", kind="expr", text="x", canon="x"),
                  dict(group="unless", kind="expr", text="x", canon="x")],
         rounds=[{"model.x": "T"}]),
-    "findings/C08_unique_key_collision.json": dict(
-        id="K2", names={"x": [["model", "attr"]], "y": [["model", "attr"]], "z": [["model", "attr"]]},
-        force_async=False, malformed=None,
-        entries=[dict(group="cond", kind="expr", text="(x and y) or z", canon="(x and y) or z"),
-                 dict(group="cond", kind="expr", text="x and (y or z)", canon="x and (y or z)")],
-        rounds=[{"model.x": "T", "model.y": "F", "model.z": "F"}]),
-    "findings/C08_bang_glued_to_keyword.json": dict(
-        id="K3", names={"x": [["model", "attr"]], "y": [["model", "attr"]]}, force_async=False, malformed=None,
-        entries=[dict(group="cond", kind="expr", text="x and!y", canon="x and not y")],
-        rounds=[{"model.x": "T", "model.y": "F"}]),
 }
 
 
@@ -314,30 +318,34 @@ def run(ctx):
                     _merge(total, replay_file(ctx, os.path.join(corpus, fn)))
         run_findings(ctx)
         thorough = ctx.tier == "thorough"
-        n_random = 100000 if thorough else 5000
+        n_random = 300000 if thorough else 20000
         step = 500
         jobs = [(ctx.seed, "r", lo, min(lo + step, n_random), {}) for lo in range(0, n_random, step)]
         nproc = min(16, os.cpu_count() or 1) if thorough else min(4, os.cpu_count() or 1)
+        fams = [("bool", 4), ("chain", 3)] if thorough else [("bool", 3), ("chain", 2)]
         t0 = time.time()
-        exhaustive_done = False
         with mp.Pool(nproc) as pool:
             for stats, problems in pool.imap_unordered(_random_batch, jobs):
                 _merge(total, stats)
                 all_problems += problems
-            if thorough:
-                n = n_exhaustive()
-                ejobs = [(lo, lo + 1000) for lo in range(0, n, 1000)]
+            small = {}
+            for kind, size in fams:
+                n = len(family(kind, size))
+                ejobs = [(kind, size, lo, lo + 1000) for lo in range(0, n, 1000)]
                 ex_total = {}
                 for stats, problems in pool.imap_unordered(_exhaustive_batch, ejobs):
                     _merge(ex_total, stats)
                     all_problems += problems
-                exhaustive_done = True
-                ctx.coverage["exhaustive_small_scope"] = dict(
-                    what="every expression with <=4 operators from {not, and, or} over 3 names, each under "
-                         "every truthy/falsy valuation of the names it uses (one guard entry, cond or unless)",
+                small[f"{kind}<={size}"] = dict(
                     expressions=ex_total.get("evaluations", 0), events=ex_total.get("events", 0),
                     complete=ex_total.get("evaluations", 0) == n)
                 _merge(total, ex_total)
+            ctx.coverage["exhaustive_small_scope"] = dict(
+                what="bool<=k: every expression with <=k operators from {not, and, or} over 3 names under every "
+                     "truthy/falsy valuation of the names it uses; chain<=k: every comparison chain with <=k links "
+                     "over operands {x, y, 1} and all six operators under every valuation of x, y in {0, 1, 2}; "
+                     "one guard entry (cond or unless) per machine, spelling and blanks varied by index",
+                families=small)
         ctx.coverage["generation_s"] = round(time.time() - t0, 1)
         ctx.coverage["exhaustive"] = False   # the property's input space is infinite; see exhaustive_small_scope
         report(ctx, sorted(all_problems, key=lambda p: (not p[1], len(json.dumps(p[0])))))
